@@ -394,6 +394,8 @@ class FlowEvaluator(Evaluator):
                     raise AttributeError(f"type object {base.name} has no attribute {e.attr}")
                 if base is None:
                     raise AttributeError(f"NoneType object has no attribute {e.attr}")
+                if isinstance(base, tuple) and e.attr in getattr(base, "_fields", ()):
+                    return getattr(base, e.attr)              # NamedTuple of the repository (minieval.namedtuple_of)
                 raise Unsupported(f"attribute {e.attr} on {type(base).__name__}")
             return super().expr(e, env)
         if isinstance(e, (ast.Tuple, ast.List, ast.Set)):
@@ -772,6 +774,10 @@ class LexerSim:
                     return ExcClass(nm)
                 if nm == "Lexer":
                     return ClassRef("Lexer")
+                from .minieval import namedtuple_of
+                nt = namedtuple_of(m.classes[nm].node)
+                if nt is not None:
+                    return nt                      # a NamedTuple of the repository: the equivalent Python namedtuple
                 raise Unsupported(f"class {nm} has no stand-in")
             if nm in m.functions:
                 return Closure(m.functions[nm].node, {})
